@@ -26,6 +26,45 @@ type PanicVal struct {
 	N int
 }
 
+// PanicErrVal is the other shape of a panic value: an error whose chain contains a genuine
+// dig error (what a user function does that panics with the error of a nested dig call).
+// A recovered panic must stay the root cause whatever the panic value is (C13).
+type PanicErrVal struct {
+	PanicVal
+	Inner error
+}
+
+func (p PanicErrVal) Error() string { return fmt.Sprintf("planned panic of %s#%d: %v", p.F, p.N, p.Inner) }
+func (p PanicErrVal) Unwrap() error { return p.Inner }
+
+// innerDigErr is a genuine dig error (missing type) obtained from a throw-away container.
+var innerDigErr error = &innerErr{dig.New().Invoke(func(*univ.T0) {})}
+
+// innerErr keeps the panic value comparable (dig's error types need not be).
+type innerErr struct{ err error }
+
+func (e *innerErr) Error() string { return "nested dig call failed: " + e.err.Error() }
+func (e *innerErr) Unwrap() error { return e.err }
+
+// panicValue is the Go value execution n of f panics with: both shapes occur.
+func panicValue(f string, n int) interface{} {
+	if (len(f)+int(f[len(f)-1])+n)%2 == 0 {
+		return PanicErrVal{PanicVal{f, n}, innerDigErr}
+	}
+	return PanicVal{f, n}
+}
+
+// asPanicVal recognises an injected panic value of either shape.
+func asPanicVal(p interface{}) (PanicVal, bool) {
+	switch v := p.(type) {
+	case PanicVal:
+		return v, true
+	case PanicErrVal:
+		return v.PanicVal, true
+	}
+	return PanicVal{}, false
+}
+
 var (
 	inType  = reflect.TypeOf(dig.In{})
 	outType = reflect.TypeOf(dig.Out{})
